@@ -18,6 +18,7 @@ TECHNIQUE = ('symbolic execution of the fit() drivers with the random generators
              'bounded model checking of the real multi-core driver under contract stubs of multiprocessing with solver-chosen schedules and failing locus (every interleaving in the bound), witnesses replayed with real multiprocessing')
 ENCODED = ["mchap.application.baseclass.program.run_stdout", "mchap.application.baseclass.program._run_stdout_multi_core", "mchap.application.baseclass.program._run_stdout_single_core",
            "mchap.application.baseclass.program._worker", "mchap.application.baseclass.program._writer", "mchap.application.baseclass.program._assemble_loci_wrapped",
+           "mchap.application.baseclass.program._locus_data", "mchap.application.arguments.parse_report_fields",
            "mchap.assemble.mcmc.DenovoMCMC.fit", "mchap.assemble.mcmc.DenovoMCMC._mcmc", "mchap.calling.classes.CallingMCMC.fit", "mchap.pedigree.classes.PedigreeCallingMCMC.fit",
            "mchap.application.call.program.call_sample_genotypes", "mchap.application.assemble.program.call_sample_genotypes"]
 STUBS = ["np.random.seed and mchap.jitutils.seed_numba -> recorders of (generator, seed)",
@@ -29,7 +30,8 @@ ASSUMES = ["numba's and numpy's generators are deterministic functions of their 
            "multi-core group: the standard library behaves as its documented contract (stub validated against real multiprocessing in validate()); pickling of the program object succeeds; partial-order reduction: steps that commute with all other processes are not permuted",
            "the record of a locus is a function of (locus, inputs, seed) -- that is the seeding core above -- so the multi-core group uses opaque record lines"]
 BOUNDS = {"quick": "assemble: 0 or 2 reads, sites all fixed / some / none (symbolic homozygosity probabilities and threshold), initial genotype given or sampled, 1-2 chains, 1-2 temperatures; call: with/without variants, initial given or greedy; pedigree: initial given or greedy; application loops: 2 samples; "
-                   "multi-core: (loci, cores) in {(1,1),(2,1),(1,2),(2,2),(3,2)}, failing locus in {none, each locus}, ALL schedules",
+                   "multi-core: (loci, cores) in {(1,1),(2,1),(1,2),(2,2),(3,2)}, failing locus in {none, each locus}, ALL schedules; "
+                   "state-leak: each of the four programs processes a 3-sample locus twice (program attributes and module-level containers compared), --report parsing four times",
           "thorough": "same fit() space (small, fully explored); multi-core: adds (4,2),(2,3),(3,3),(4,3),(5,2),(5,3)"}
 OUTSIDE = ("the OS / CPython implementation of multiprocessing (processes, pickling, pipes, signals) is replaced by its documented contract; more loci / cores than the bound; "
            "iteration over the targets file by pysam (locus order/subsets are covered only through 'a record depends on its locus and the seed alone'); header date/command lines; "
@@ -59,6 +61,12 @@ def configs(tier):
     for n_loci, n_cores in mc:
         out.append(dict(group="multicore", n_loci=n_loci, n_cores=n_cores))
     out.append(dict(group="multicore", n_loci=2, n_cores=1))
+    # nothing outlives a locus: program object and module-level containers unchanged, second pass gives the same record
+    from checks import wiring
+
+    for prog in wiring.PROGS:
+        out.append(dict(group="state-leak", prog=prog, order=0, twice=True))
+    out.append(dict(group="state-leak", prog="report-fields"))
     return out
 
 
@@ -522,6 +530,50 @@ def _mc_paths(body, col, chunk, all_writers):
             yield pr
 
 
+def _run_state_leak(c, col):
+    from checks import wiring
+
+    if c["prog"] != "report-fields":
+        E.cfg.concrete_floats = True  # the records are rendered: numbers stay native floats
+        try:
+            return wiring.run(c, col)
+        finally:
+            E.cfg.concrete_floats = False
+    # parse_report_fields / argument collection must not grow the module-level field lists
+    E.reset_modules()
+    args = E.load("mchap.application.arguments")
+    FORMAT = E.load("mchap.io.vcf.formatfields")
+    INFO = E.load("mchap.io.vcf.infofields")
+    site = "mchap.application.arguments.parse_report_fields"
+
+    class P:
+        pass
+
+    def body(ctx):
+        before = wiring.snapshot_state(P())
+        a1 = args.parse_report_fields(["GP", "AFP", "INFO/ACP"])
+        a2 = args.parse_report_fields(None)
+        a3 = args.parse_report_fields(["GP", "AFP", "INFO/ACP"])
+        a2[0].append("x")
+        a2[1].append("y")
+        a4 = args.parse_report_fields(None)
+        return wiring.diff_state(before, wiring.snapshot_state(P())), [getattr(f, "id", f) for f in a1[0]] == [getattr(f, "id", f) for f in a3[0]] and [getattr(f, "id", f) for f in a1[1]] == [getattr(f, "id", f) for f in a3[1]], \
+            [getattr(f, "id", f) for f in a4[0]], [getattr(f, "id", f) for f in a4[1]], [getattr(f, "id", f) for f in INFO.DEFAULT_FIELDS], [getattr(f, "id", f) for f in FORMAT.DEFAULT_FIELDS]
+
+    for pr in E.explore(body, stats=col.stats):
+        if pr.exc is not None:
+            col.fail(site, "exception", witness=dict(exc=repr(pr.exc)), desc="raised %r" % (pr.exc,))
+            continue
+        col.path()
+        col.reachable(pr.ctx)
+        changed, same, i4, f4, idef, fdef = pr.value
+        if changed or not same or i4 != idef or f4 != fdef:
+            col.fail(site, "state-leak", shape=dict(prog="report-fields"), witness=dict(prog="report-fields", changed=changed[:4], default_info=i4, default_format=f4),
+                     desc="--report parsing depends on / changes earlier calls: %s" % ("; ".join(changed[:2]) or "a caller-side edit of the returned lists shows up in the next call"))
+        else:
+            col.ok("parse_report_fields returns fresh lists: module-level DEFAULT_FIELDS unchanged, results independent of earlier calls and of edits to earlier results")
+
+
 def _model_of(ctx):
     ctx.isolver.check()
     return ctx.isolver.model()
@@ -563,6 +615,10 @@ def replay(v):
     g = v["config"]["group"]
     if g == "multicore":
         return _replay_multicore(v)
+    if g == "state-leak":
+        from checks import wiring
+
+        return wiring.replay_real(v, _run_state_leak)
     if g == "rng-sources":
         g = "assemble"
     rs = v["config"].get("seed", 11)
